@@ -119,6 +119,8 @@ def _deref_uses(node_ast, name, guarded=frozenset()):
                 out.append((n, "`%s`" % ntext(n)[:50]))
             elif isinstance(n, ast.BinOp) and not isinstance(n.op, ast.Mod) and any(isinstance(x, ast.Name) and x.id == name for x in (n.left, n.right)):
                 out.append((n, "arithmetic `%s`" % ntext(n)[:50]))
+            elif isinstance(n, ast.Call) and ntext(n.func) in ("open", "os.path.join", "os.path.splitext", "os.path.basename", "os.path.dirname", "os.path.realpath", "os.path.abspath", "shutil.copy2", "shutil.copy") and any(isinstance(a, ast.Name) and a.id == name for a in n.args):
+                out.append((n, "`%s` (a path argument must be a string)" % ntext(n)[:50]))
             elif isinstance(n, ast.Starred) and isinstance(n.value, ast.Name) and n.value.id == name:
                 out.append((n, "`*%s`" % name))
             elif isinstance(n, ast.Call) and isinstance(n.func, ast.Attribute) and n.func.attr in ("update", "extend") and any(isinstance(a, ast.Name) and a.id == name for a in n.args):
@@ -545,9 +547,9 @@ def index_rule(ctx, R):
 # ---------------------------------------------------------------------------
 
 @rule("GEN.DEFINED")
-def defined(ctx, R):
+def defined(ctx, R, reach=None, floor=100):
     P = ctx.P
-    reach = export_reach(ctx)
+    reach = export_reach(ctx) if reach is None else reach
     n = 0
     for q in sorted(reach):
         f = P.funcs.get(q)
@@ -570,7 +572,7 @@ def defined(ctx, R):
         # closures reading a variable of the enclosing function that is assigned only later are not examined
         if not bad:
             R.ok("GEN.DEFINED", q, where(f), "every local is assigned on all paths before each use", nontrivial=True)
-    R.check(n >= 100, "GEN.DEFINED.inventory", "functions examined: %d" % n, "", "", "fewer functions on the export call graph than expected", nontrivial=False)
+    R.check(n >= floor, "GEN.DEFINED.inventory", "functions examined: %d" % n, "", "", "fewer functions examined than expected (%d)" % floor, nontrivial=False)
     # names that are neither local, enclosing, global, builtin
     import builtins
 
@@ -612,15 +614,52 @@ def defined(ctx, R):
                 R.bad("GEN.DEFINED", "%s|undefined name %s" % (q, nd.id), where(f, nd), "name `%s` is not defined in any enclosing scope, the module or builtins (NameError)" % nd.id)
 
 
+def _foreign_receiver(e, f, T):
+    """A local name whose every assignment is the result of calling something imported from outside the package."""
+    if not isinstance(e, ast.Name) or f.is_lambda or e.id in f.params:
+        return False
+    if T.ev(e, f, f.module):
+        return False
+    vals = []
+    for nd in walk_local(f.node):
+        if isinstance(nd, ast.Assign):
+            for t in nd.targets:
+                if isinstance(t, ast.Name) and t.id == e.id:
+                    vals.append(nd.value)
+                elif any(isinstance(x, ast.Name) and x.id == e.id and isinstance(x.ctx, ast.Store) for x in ast.walk(t)):
+                    return False
+        elif isinstance(nd, (ast.For, ast.comprehension, ast.NamedExpr, ast.AugAssign)) and any(isinstance(x, ast.Name) and x.id == e.id and isinstance(getattr(x, "ctx", None), ast.Store) for x in ast.walk(nd.target)):
+            return False
+    if not vals:
+        return False
+    for v in vals:
+        if not isinstance(v, ast.Call):
+            return False
+        r = v.func
+        while isinstance(r, ast.Attribute):
+            r = r.value
+        if not isinstance(r, ast.Name):
+            return False
+        imp = f.module.imports.get(r.id)
+        if imp is None or imp[1].startswith("labella"):
+            return False
+    return True
+
+
 @rule("GEN.ATTRS")
-def attrs(ctx, R):
+def attrs(ctx, R, reach=None, floor=150):
     """Every attribute read through `self` is a method/class attribute or assigned somewhere in the package."""
     P = ctx.P
-    reach = export_reach(ctx)
+    reach = export_reach(ctx) if reach is None else reach
     stored = set()
+    T = ctx.types
     for f in P.funcs.values():
         for nd in ast.walk(f.node):
             if isinstance(nd, ast.Attribute) and isinstance(nd.ctx, ast.Store):
+                # stores on objects that evidently come from outside the package (ElementTree elements, ...) say
+                # nothing about attributes of the package's own instances
+                if _foreign_receiver(nd.value, f, T):
+                    continue
                 stored.add(nd.attr)
     n = 0
     for q in sorted(reach):
@@ -656,7 +695,7 @@ def attrs(ctx, R):
                     R.ok("GEN.ATTRS", "%s|self.%s" % (q, nd.attr), where(f, nd), "assigned by another class of the package", nontrivial=False)
                     continue
                 R.bad("GEN.ATTRS", "%s|self.%s" % (q, nd.attr), where(f, nd), "`self.%s` is read but no method of %s (or any class of the package) ever assigns it (AttributeError)" % (nd.attr, cls.name))
-    R.check(n >= 150, "GEN.ATTRS.inventory", "self attribute reads examined: %d" % n, "", "", "fewer attribute reads than expected", nontrivial=False)
+    R.check(n >= floor, "GEN.ATTRS.inventory", "self attribute reads examined: %d" % n, "", "", "fewer attribute reads than expected (%d)" % floor, nontrivial=False)
     # methods called on self must exist
     for q in sorted(reach):
         f = P.funcs.get(q)
@@ -1003,6 +1042,23 @@ def degenerate(ctx, R):
     R.check(ok, "C11.DEGENERATE", "tick generator on (a, a, 0)", where(h), "strict `<` test: an empty range yields no tick and terminates", "the tick generator does not test `r < stop` strictly: the degenerate range (a, a, 0) would loop forever or divide")
 
 
+def gen_for(modules, floor_funcs, floor_attrs):
+    """GEN.DEFINED + GEN.ATTRS restricted to all functions of the given modules (used by the other properties for
+    the code they are anchored in: a NameError / AttributeError there breaks them as surely as a wrong formula)."""
+
+    def run(ctx, R):
+        reach = {q for q, f in ctx.P.funcs.items() if f.module.name in modules}
+        defined(ctx, R, reach=reach, floor=floor_funcs)
+        attrs(ctx, R, reach=reach, floor=floor_attrs)
+        from .crash import crash_pack
+
+        crash_pack(lambda _ctx: reach)(ctx, R)
+
+    run.rule_id = "GEN.DEFINED"
+    run.__name__ = "gen_" + "_".join(modules)
+    return run
+
+
 def _uni2tex_rules():
     from .c19 import TOTALITY
     return TOTALITY
@@ -1039,4 +1095,36 @@ def _uni(ctx, R):
 
 _uni.rule_id = "C19.TOTAL"
 
-RULES = [none_rule, divzero, raise_rule, nolatex, index_rule, defined, attrs, opts_merge, optkeys, format_rule, siblings, recursion, degenerate, _rangeint, _calfield, _subms, _uni]
+def _crash(ctx, R):
+    from .crash import crash_pack
+    return crash_pack(export_reach)(ctx, R)
+
+
+_crash.rule_id = "GEN.CRASH"
+
+
+def _seqindex(ctx, R):
+    from .crash import seqindex, geomset, datumkeys
+    seqindex(ctx, R)
+    geomset(ctx, R)
+    datumkeys(ctx, R)
+
+
+_seqindex.rule_id = "GEN.SEQINDEX"
+
+def _hextotal(ctx, R):
+    from .crash import hex_total
+    return hex_total(ctx, R)
+
+
+_hextotal.rule_id = "C11.HEXTOTAL"
+
+
+def _int2name(ctx, R):
+    from .c20 import int2name_total
+    return int2name_total(ctx, R)
+
+
+_int2name.rule_id = "C11.INT2NAME"
+
+RULES = [none_rule, divzero, raise_rule, nolatex, index_rule, defined, attrs, opts_merge, optkeys, format_rule, siblings, recursion, degenerate, _rangeint, _calfield, _subms, _uni, _crash, _seqindex, _hextotal, _int2name]
